@@ -104,11 +104,7 @@ theorem mem_insertStr (x y : String) (l : List String) : y ∈ insertStr x l ↔
           · exact Or.inr (Or.inr h)
       · next h1 h2 =>
         -- neither x < z nor z < x: they are equal
-        have : x = z := by
-          rcases String.lt_trichotomy x z with h | h | h
-          · exact absurd h h1
-          · exact h
-          · exact absurd h h2
+        have : x = z := String.le_antisymm h2 h1
         subst this; simp
 
 theorem mem_sortStr (l : List String) (y : String) : y ∈ sortStr l ↔ y ∈ l := by
